@@ -1,6 +1,7 @@
 // ---- spec/store.rs: consistency between the index tables and the event map ----
 pub open spec fn world_inv(w: World) -> bool {
     &&& 8 <= w.map_end <= w.map.len()
+    &&& w.flc == w.map.len() && w.file_len >= w.map.len() && w.map.len() % 8 == 0 && w.map.len() <= 0x7fff_ffff_0000_0000
     &&& forall|off: int| #[trigger] w.events.contains_key(off) ==>
             wf_event(w.events[off]) && 8 <= off && off % 8 == 0 && off + w.events[off].len() <= w.map_end
             && w.map.subrange(off, off + w.events[off].len()) == w.events[off]
@@ -366,3 +367,49 @@ pub proof fn lemma_akc_survives(w: World, d: Db, a: Seq<u8>, kd: u16, until: u64
     }
 }
 pub open spec fn is_repl_kind(k: u16) -> bool { k == 0 || k == 3 || 10000 <= k <= 19999 }
+// the map below the old end marker is untouched and no event was added: the invariant carries over
+pub broadcast proof fn lemma_world_prefix(w0: World, w: World)
+    requires
+        #[trigger] world_inv(w0), w.events == w0.events,
+        forall|i: int| 0 <= i < w0.map_end ==> #[trigger] w.map[i] == w0.map[i],
+        w0.map_end <= w.map_end <= w.map.len(),
+        w.flc == w.map.len() && w.file_len >= w.map.len() && w.map.len() % 8 == 0 && w.map.len() <= 0x7fff_ffff_0000_0000,
+    ensures #[trigger] world_inv(w)
+{
+    assert forall|off: int| #[trigger] w.events.contains_key(off) implies
+        wf_event(w.events[off]) && 8 <= off && off % 8 == 0 && off + w.events[off].len() <= w.map_end
+        && w.map.subrange(off, off + w.events[off].len()) == w.events[off] by {
+        let n = w.events[off].len() as int;
+        assert(w0.events.contains_key(off));
+        assert(w.map.subrange(off, off + n) =~= w0.map.subrange(off, off + n));
+    }
+}
+// ... and appending one well-formed event at an aligned offset at or beyond the old end keeps it
+pub broadcast proof fn lemma_world_append(w0: World, w: World, off: int, e: Seq<u8>)
+    requires
+        #[trigger] world_inv(w0), wf_event(e), w.events == #[trigger] w0.events.insert(off, e),
+        forall|i: int| 0 <= i < w0.map_end ==> #[trigger] w.map[i] == w0.map[i],
+        w0.map_end <= off, off % 8 == 0, w.map_end == off + e.len(), w.map_end <= w.map.len(),
+        forall|i: int| 0 <= i < e.len() ==> #[trigger] w.map[off + i] == e[i],
+        w.flc == w.map.len() && w.file_len >= w.map.len() && w.map.len() % 8 == 0 && w.map.len() <= 0x7fff_ffff_0000_0000,
+    ensures #[trigger] world_inv(w), !w0.events.contains_key(off)
+{
+    if w0.events.contains_key(off) {
+        assert(off + w0.events[off].len() <= w0.map_end);
+        assert(wf_event(w0.events[off]));
+    }
+    assert forall|o: int| #[trigger] w.events.contains_key(o) implies
+        wf_event(w.events[o]) && 8 <= o && o % 8 == 0 && o + w.events[o].len() <= w.map_end
+        && w.map.subrange(o, o + w.events[o].len()) == w.events[o] by {
+        if o != off {
+            let n = w.events[o].len() as int;
+            assert(w0.events.contains_key(o));
+            assert(w.map.subrange(o, o + n) =~= w0.map.subrange(o, o + n));
+        } else {
+            assert forall|i: int| 0 <= i < e.len() implies #[trigger] w.map.subrange(off, off + e.len())[i] == e[i] by {
+                assert(w.map[off + i] == e[i]);
+            }
+            assert(w.map.subrange(off, off + e.len()) =~= e);
+        }
+    }
+}
